@@ -252,6 +252,7 @@ slab_c (int m)
 }
 
 /* (d) salt: every single-character change, and a cost step */
+static int numeric_cost_differs;   /* the two settings spell numerically different costs: equal hash parts are a violation even when the echoed settings coincide */
 static void
 compare_settings (int m, const char *P, const char *S1, const char *S2, const char *what, long pos, const char *replay)
 {
@@ -266,7 +267,7 @@ compare_settings (int m, const char *P, const char *S1, const char *S2, const ch
     return;
   strcpy (H2, h);
   size_t o1 = hash_off (method_of (H1), H1), o2 = hash_off (method_of (H2), H2);
-  if (o1 == o2 && !strncmp (H1, H2, o1))
+  if (o1 == o2 && !strncmp (H1, H2, o1) && !numeric_cost_differs)
     return;                     /* same canonical setting part: no obligation */
   if (!strcmp (H1 + o1, H2 + o2))
     {
@@ -297,6 +298,18 @@ slab_d (int m)
           }
       if (B->alt_cost)
         compare_settings (m, phr[pj], B->s, B->alt_cost, "cost-step", -1, rp);
+      /* decimal cost fields: the same number plus 2^32 / 2^33 is a different cost (or is refused) */
+      if (m == M_SHA512 || m == M_SHA256)
+        {
+          static const char *const wraps[] = { "4294968296", "8589935592", "281474976711656" };
+          for (int w = 0; w < 3; w++)
+            {
+              snprintf (S2, sizeof S2, "%.3srounds=%s$saltSALTsaltSALT", B->s, wraps[w]);
+              numeric_cost_differs = 1;
+              compare_settings (m, phr[pj], B->s, S2, "cost-plus-2^32", -1, rp);
+              numeric_cost_differs = 0;
+            }
+        }
     }
 }
 
